@@ -230,7 +230,12 @@ VCLAUSE(continuous, 60, 10000, 200000, "the argument pair straddles a branch poi
 	}
 	long double integral = integrate_pdf(D, qa, qb);
 	double atom = (D.atom_at_lo > 0 && qa < D.lo && qb >= D.lo) ? D.atom_at_lo : 0.0;
-	VCLOSE(c, "cdf_difference_is_integral_of_pdf", cb - ca, (double) integral + atom, 1e-10 + D.acc, D.name << ": cdf(" << qb << ")-cdf(" << qa << ") vs the integral of the density (Gauss-Legendre in long double)");
+	// (a quadrature node within half an ulp of a jump of the density - the ends of the uniform distribution - is rounded onto it: the
+	// reference itself is uncertain by the density times a few ulps of the argument; found by the thorough tier)
+	double pc = 0;
+	VMUST_RETURN(D.name << " pdf", pc = D.pdf(D.centre));
+	double jump_slack = 8 * EPS * std::max(std::fabs(qa), std::fabs(qb)) * std::max(pc, std::max(pa, pb));
+	VCLOSE(c, "cdf_difference_is_integral_of_pdf", cb - ca, (double) integral + atom, 1e-10 + D.acc + jump_slack, D.name << ": cdf(" << qb << ")-cdf(" << qa << ") vs the integral of the density (Gauss-Legendre in long double)");
 	if(D.name == "normal")
 		VCLOSE(c, "normal_cdf_reference", ca, (double) ref::normal_cdf(a, D.centre, D.scale), 4 * EPS, "CDF_Gauss vs erfc reference");
 }
